@@ -1,0 +1,49 @@
+//go:build verif
+
+package peerstate
+
+// Contracts for the verif build tag only (comment-only file; see /verif/DESIGN.md).
+// C23: Diagnostics is an exact oracle for "the reported request states agree with the task queue".
+
+//@ -- choice function: a position at which an element of a list occurs (sound: every element has one)
+//@ fn idxOf(s []graphsync.RequestID, id graphsync.RequestID) int
+//@ lemmadef idxOf_elem(s []graphsync.RequestID, i int):
+//@   0 <= i && i < len(s) ==> 0 <= idxOf(s, s[i]) && idxOf(s, s[i]) < len(s) && s[idxOf(s, s[i])] == s[i]
+//@ pred inList(s []graphsync.RequestID, id graphsync.RequestID) := 0 <= idxOf(s, id) && idxOf(s, id) < len(s) && s[idxOf(s, id)] == id
+//@ pred listOK(s []graphsync.RequestID, n int, st graphsync.RequestStates, want graphsync.RequestState) :=
+//@   forall i int :: 0 <= i && i < n ==> s[i] in st && st[s[i]] == want
+//@ pred statesOK(ps PeerState) :=
+//@   forall id graphsync.RequestID :: id in ps.RequestStates ==>
+//@     (ps.RequestStates[id] == graphsync.Running ==> inList(ps.TaskQueueState.Active, id)) &&
+//@     (ps.RequestStates[id] == graphsync.Queued ==> inList(ps.TaskQueueState.Pending, id))
+//@ pred agree(ps PeerState) :=
+//@   listOK(ps.TaskQueueState.Active, len(ps.TaskQueueState.Active), ps.RequestStates, graphsync.Running) &&
+//@   listOK(ps.TaskQueueState.Pending, len(ps.TaskQueueState.Pending), ps.RequestStates, graphsync.Queued) &&
+//@   statesOK(ps)
+
+//@ func PeerState.Diagnostics
+//@   lenient
+//@   use idxOf_elem(ps.TaskQueueState.Active, idx1)
+//@   use idxOf_elem(ps.TaskQueueState.Pending, idx2)
+//@   ensures (forall d0 graphsync.RequestID :: !(d0 in result)) <==> agree(ps)
+//@   loop 1 invariant 0 <= idx1 && idx1 <= len(ps.TaskQueueState.Active)
+//@   loop 1 invariant forall j int :: 0 <= j && j < idx1 && ps.TaskQueueState.Active[j] in ps.RequestStates ==> ps.TaskQueueState.Active[j] in matchedActiveQueue
+//@   loop 1 invariant forall x graphsync.RequestID :: x in matchedActiveQueue ==> inList(ps.TaskQueueState.Active, x)
+//@   loop 1 invariant forall x graphsync.RequestID :: !(x in matchedPendingQueue)
+//@   loop 1 invariant (forall d0 graphsync.RequestID :: !(d0 in diagnostics)) ==> listOK(ps.TaskQueueState.Active, idx1, ps.RequestStates, graphsync.Running)
+//@   loop 1 invariant agree(ps) ==> (forall d0 graphsync.RequestID :: !(d0 in diagnostics))
+//@   loop 2 invariant 0 <= idx2 && idx2 <= len(ps.TaskQueueState.Pending)
+//@   loop 2 invariant forall j int :: 0 <= j && j < len(ps.TaskQueueState.Active) && ps.TaskQueueState.Active[j] in ps.RequestStates ==> ps.TaskQueueState.Active[j] in matchedActiveQueue
+//@   loop 2 invariant forall x graphsync.RequestID :: x in matchedActiveQueue ==> inList(ps.TaskQueueState.Active, x)
+//@   loop 2 invariant forall j int :: 0 <= j && j < idx2 && ps.TaskQueueState.Pending[j] in ps.RequestStates ==> ps.TaskQueueState.Pending[j] in matchedPendingQueue
+//@   loop 2 invariant forall x graphsync.RequestID :: x in matchedPendingQueue ==> inList(ps.TaskQueueState.Pending, x)
+//@   loop 2 invariant (forall d0 graphsync.RequestID :: !(d0 in diagnostics)) ==> listOK(ps.TaskQueueState.Active, len(ps.TaskQueueState.Active), ps.RequestStates, graphsync.Running) && listOK(ps.TaskQueueState.Pending, idx2, ps.RequestStates, graphsync.Queued)
+//@   loop 2 invariant agree(ps) ==> (forall d0 graphsync.RequestID :: !(d0 in diagnostics))
+//@   loop 3 invariant forall j int :: 0 <= j && j < len(ps.TaskQueueState.Active) && ps.TaskQueueState.Active[j] in ps.RequestStates ==> ps.TaskQueueState.Active[j] in matchedActiveQueue
+//@   loop 3 invariant forall x graphsync.RequestID :: x in matchedActiveQueue ==> inList(ps.TaskQueueState.Active, x)
+//@   loop 3 invariant forall j int :: 0 <= j && j < len(ps.TaskQueueState.Pending) && ps.TaskQueueState.Pending[j] in ps.RequestStates ==> ps.TaskQueueState.Pending[j] in matchedPendingQueue
+//@   loop 3 invariant forall x graphsync.RequestID :: x in matchedPendingQueue ==> inList(ps.TaskQueueState.Pending, x)
+//@   loop 3 invariant (forall d0 graphsync.RequestID :: !(d0 in diagnostics)) ==> listOK(ps.TaskQueueState.Active, len(ps.TaskQueueState.Active), ps.RequestStates, graphsync.Running) && listOK(ps.TaskQueueState.Pending, len(ps.TaskQueueState.Pending), ps.RequestStates, graphsync.Queued)
+//@   loop 3 invariant (forall d0 graphsync.RequestID :: !(d0 in diagnostics)) ==> (forall x graphsync.RequestID :: x in seen3 ==> x in ps.RequestStates &&
+//@       (ps.RequestStates[x] == graphsync.Running ==> inList(ps.TaskQueueState.Active, x)) && (ps.RequestStates[x] == graphsync.Queued ==> inList(ps.TaskQueueState.Pending, x)))
+//@   loop 3 invariant agree(ps) ==> (forall d0 graphsync.RequestID :: !(d0 in diagnostics))
